@@ -5,6 +5,7 @@ import (
 	"fmt"
 	"os"
 	"strings"
+	"time"
 
 	"github.com/btcsuite/btcd/txscript/v2"
 
@@ -111,13 +112,22 @@ func (P) Generate(g *core.Gen) {
 	every := g.N(10, 1)
 	cs = append(cs, taprootRefCases(every, int(g.Seed%uint64(every)))...)
 	// generated programs
+	t0 := time.Now()
+	tick := func(what string) {
+		if os.Getenv("C06_TIMING") != "" {
+			fmt.Fprintf(os.Stderr, "timing: %s %.1fs\n", what, time.Since(t0).Seconds())
+		}
+	}
+	tick("vectors loaded")
 	keys := makeKeys(r, 5)
 	cs = append(cs, genRegress()...)
 	cs = append(cs, genLimits(g, r, keys)...)
-	cs = append(cs, genSoup(g, r, keys, g.N(7000, 600000))...)
-	cs = append(cs, genSigs(g, r, keys, g.N(4000, 300000))...)
-	cs = append(cs, genWitnessMisc(g, r, keys, g.N(2000, 150000))...)
+	cs = append(cs, genSoup(g, r, keys, g.N(6000, 60000))...)
+	cs = append(cs, genSigs(g, r, keys, g.N(3500, 35000))...)
+	cs = append(cs, genWitnessMisc(g, r, keys, g.N(1800, 18000))...)
+	tick("spends built")
 	emitSpends(g, cs)
+	tick("oracles resolved")
 	sighashCases(g)
 }
 
